@@ -10,10 +10,15 @@ rule_sets   generated rule sets in 1-3 synthetic modules (module base names, key
             spec registry point <- datasource / parser or condition on a spec / combiner on a parser)
             whose content provider may load lazily into ContentException / CalledProcessError; rule
             bodies read what they are given, so such an error surfaces inside the rule.
+            Rules are declared with their own or with shared constants (one links dict / tags list /
+            metadata dict / dependency list object for several decorators) and a generated "configs" list
+            goes through insights.apply_configs before the evaluation (entries naming one rule, a module,
+            nothing): every rule is reported with its own tags and links, runs iff it is enabled.
 filtering   the same check on a fixed rule set holding every outcome class, for *every*
             missing x show_rules-subset combination (finite, enumerated) through JSON and YAML.
 responses   response constructor arguments: key validation, reserved names, payload sizes
             straddling settings.defaults["max_detail_length"] (default and re-configured limit)."""
+import copy
 import io
 import itertools
 import json
@@ -34,7 +39,12 @@ RULE = ("rule sets of 1-10 generated rules in 1-3 synthetic modules (colliding m
         "or raises ContentException / CalledProcessError on first access (a parser/condition/combiner over "
         "unreadable content is absent, a component/spec value is present and fails in whoever reads it); "
         "per rule whether its body reads its arguments, a dependency declaration (required, at-least-one groups, optional; possibly none), "
-        "enabled/disabled, tags, links and a return kind out of fail, response, pass, info, "
+        "enabled/disabled, tags, links, metadata - each one the rule's own literal or a constant shared by several "
+        "rule declarations (the same dict / list object handed to several decorators; likewise identical group / "
+        "optional lists) - optionally a 'configs' list of 1-3 entries applied through insights.apply_configs after "
+        "a YAML round trip (each naming one rule exactly, a module by prefix, or nothing, and carrying any of "
+        "links / tags / metadata / enabled, own values or anchors shared between entries) "
+        "and a return kind out of fail, response, pass, info, "
         "fingerprint, metadata, metadata_key, None, a non-response value (incl. falsy ones and a "
         "response-shaped plain dict), raising (ValueError/KeyError/ContentException/"
         "CalledProcessError), deliberate SkipComponent, an invalid response constructed inside the "
@@ -55,6 +65,11 @@ ASSUMPTIONS = [
     "the YAML output is read back with a loader that maps python/object tags to plain dicts",
     "formatter adapter options follow their help texts: -F = -S fail, dropped when -m is given, "
     "-S wins over -F",
+    "apply_configs docstring: an entry applies to every component whose name starts with its name; 'enabled' "
+    "defaults to True for the components an entry names (the last entry naming a rule decides); a rule no entry "
+    "with links (tags) names is reported with exactly the links (tags) it declares; a rule such entries name is "
+    "reported with every category (tag) of the last one, and with nothing that is neither declared by it nor "
+    "configured for it - whether declared categories survive next to configured ones is not stated and not asserted",
 ]
 EXCLUDED = [
     "rules whose metadata keys collide (merge order not claimed): colliding keys are only required "
@@ -65,6 +80,9 @@ EXCLUDED = [
     "keyword arguments named 'key' or 'self' (Python call semantics, TypeError before any validation)",
     "configured limits so small that the framework's own skip response would be stubbed (< 1500)",
     "text/HTML formatters and render_content (they render, they do not account)",
+    "configuration entries whose name is a prefix of the upstream components' module, default_component_enabled / "
+    "apply_default_enabled (process-wide switch over every loaded component), timeout, metadata keys that are "
+    "attributes of a function object (apply_configs copies those onto the component)",
 ]
 
 _counter = itertools.count()
@@ -170,13 +188,135 @@ def _flat_deps(decl):
     return out
 
 
-def model_rules(case, names, upnames):
+# --- what a rule is declared with, and what the configuration says about it
+#
+# Rule authors share decorator arguments between the rules of a module (a module level constant KCS = {...}
+# passed as links= to several @rule lines, a TAGS list, a META dict, an OPTIONAL list): case["pools"][what]
+# holds such constants, a rule refers to one with "<what>_ref" (index modulo the pool size) and every rule
+# referring to the same index is declared with the very same object.  Every entry point (insights-run -c,
+# insights-cat / insights-inspect -c, insights.tools.query, the shell, insights.collect) hands the "configs"
+# list of its YAML configuration to insights.apply_configs: case["configs"] is that list, each entry naming
+# one rule exactly, a module (prefix) or nothing and carrying any of links / tags / metadata / enabled.
+
+SHAREABLE = ("links", "tags", "metadata")
+
+
+def _pool(case, what):
+    return list((case.get("pools") or {}).get(what) or [])
+
+
+def _declared(case, r, what):
+    """the value rule r is declared with: its own literal or the shared constant it refers to"""
+    ref = r.get(what + "_ref")
+    pool = _pool(case, what)
+    if ref is not None and pool:
+        return pool[ref % len(pool)]
+    return r.get(what)
+
+
+def _cfg_value(case, e, what):
+    """-> (does the entry carry the key?, value)"""
+    ref = e.get(what + "_ref")
+    pool = _pool(case, what)
+    if ref is not None and pool:
+        return True, pool[ref % len(pool)]
+    if what in e:
+        return True, e[what]
+    return False, None
+
+
+def _cfg_name(e, names, modfulls):
+    t = e["target"]
+    if t[0] == "rule":
+        return names[t[1] % len(names)]
+    if t[0] == "module":
+        return modfulls[t[1] % len(modfulls)]
+    if t[0] == "stem":
+        return modfulls[t[1] % len(modfulls)] + ".r"
+    if t[0] == "none":
+        return modfulls[0] + "x"
+    raise HarnessError("bad case: config target %r" % (t,))
+
+
+def _config_matches(case, names, modfulls):
+    """apply_configs: 'name is the prefix or exact name of any loaded component. Any component starting
+    with name will have the associated configuration applied' -> per entry the indices of the rules it names"""
+    out = []
+    for e in case.get("configs") or []:
+        name = _cfg_name(e, names, modfulls)
+        out.append([i for i, n in enumerate(names) if n.startswith(name)])
+    return out
+
+
+def _configured(case, i, matches, what):
+    """the values the entries naming rule i carry for links / tags / enabled, in the order of the entries"""
+    out = []
+    for e, hit in zip(case.get("configs") or [], matches or []):
+        if i in hit:
+            if what == "enabled":
+                out.append(bool(e.get("enabled", True)))        # 'enabled ... Defaults to True'
+            else:
+                has, v = _cfg_value(case, e, what)
+                if has:
+                    out.append(v)
+    return out
+
+
+def _links_problem(declared, configured, got):
+    """'reported ... with its ... links': without a configuration entry that carries links for the rule,
+    exactly the links it declares.  With such entries: every category of the last one as configured, and
+    nothing that is neither declared by the rule nor configured for it (whether categories the rule declares
+    survive next to configured ones is not stated anywhere - left open)."""
+    declared = declared or {}
+    if not isinstance(got, dict):
+        return "links=%r, not a dictionary" % (got,)
+    if not configured:
+        if got != declared:
+            return "links=%r, the rule declares %r and no configuration entry with links names it" % (got, declared)
+        return None
+    last = configured[-1] or {}
+    for c, v in last.items():
+        if c not in got or got[c] != v:
+            return "links=%r, the configuration sets %r to %r for this rule" % (got, c, v)
+    for c, v in got.items():
+        if c in last:
+            continue
+        own = [d[c] for d in [declared] + [x or {} for x in configured[:-1]] if c in d]
+        if v not in own:
+            return ("links=%r: %r -> %r is neither declared by the rule (%r) nor configured for it (%r)"
+                    % (got, c, v, declared, configured))
+    return None
+
+
+def _tags_problem(declared, configured, got):
+    declared = set(declared or [])
+    if not isinstance(got, list):
+        return "tags %r, not a list" % (got,)
+    if not configured:
+        if sorted(got) != sorted(declared):
+            return "tags %r, the rule declares %r and no configuration entry with tags names it" % (got, sorted(declared))
+        return None
+    last = set(configured[-1] or [])
+    own = set(declared)
+    for x in configured:
+        own.update(x or [])
+    if not last <= set(got):
+        return "tags %r, the configuration sets %r for this rule" % (got, sorted(last))
+    if not set(got) <= own:
+        return ("tags %r: %r neither declared by the rule (%r) nor configured for it (%r)"
+                % (got, sorted(set(got) - own), sorted(declared), configured))
+    return None
+
+
+def model_rules(case, names, upnames, matches=None):
     """-> list of dict(cls=typed|skip|metadata|metadata_key|exception|nothing, ...) per rule"""
     limit = case.get("limit") or DEFAULT_LIMIT
     upval = [_up_present(case, j) for j in range(len(case["ups"]))]
     out = []
     for i, r in enumerate(case["rules"]):
-        if not r["enabled"]:
+        # declared enabled / disabled; the last configuration entry naming the rule decides otherwise
+        enabled = (_configured(case, i, matches, "enabled") or [bool(r["enabled"])])[-1]
+        if not enabled:
             out.append({"cls": "nothing", "why": "disabled", "invoked": False})
             continue
         mreq, mgrp = [], []
@@ -278,6 +418,36 @@ def selftest():
         ("exception", "lazy-content"), ("typed", None), ("nothing", "deliberate skip"), ("skip", None),
         ("nothing", "disabled"), ("exception", "lazy-content")], m
     assert m[3]["missing"] == ["u2"]
+    # shared declaration constants and configuration entries
+    case = {"ups": ["ok", "skip", "ok", "ok"], "pools": {"links": [{"kcs": ["u1"]}, {"bz": []}], "tags": [["t1"]]},
+            "configs": [{"target": ["module", 1], "tags": ["c"], "enabled": False},
+                        {"target": ["rule", 1], "links": {"jira": ["u2"]}},
+                        {"target": ["rule", 5], "links_ref": 3, "enabled": False},
+                        {"target": ["none"], "links": {"x": []}, "tags": ["n"], "enabled": False},
+                        {"target": ["stem", 0], "tags_ref": 0}],
+            "rules": [
+        {"mod": 0, "decl": [], "enabled": True, "links_ref": 0, "links": {"own": []}, "ret": {"kind": "pass", "key": "K"}},
+        {"mod": 1, "decl": [], "enabled": False, "links_ref": 2, "tags": ["d"], "ret": {"kind": "pass", "key": "K"}},
+        {"mod": 1, "decl": [], "enabled": True, "links": {"own": []}, "tags_ref": 0, "ret": {"kind": "pass", "key": "K"}}]}
+    names, modfulls = ["p_a.rules.r0", "p_b.rules.r0", "p_b.rules.r1"], ["p_a.rules", "p_b.rules"]
+    mt = _config_matches(case, names, modfulls)
+    assert mt == [[1, 2], [1], [2], [], [0]], mt
+    assert [_declared(case, r, "links") for r in case["rules"]] == [{"kcs": ["u1"]}, {"kcs": ["u1"]}, {"own": []}]
+    assert [_configured(case, i, mt, "links") for i in range(3)] == [[], [{"jira": ["u2"]}], [{"bz": []}]]
+    assert [_configured(case, i, mt, "tags") for i in range(3)] == [[["t1"]], [["c"]], [["c"]]]
+    assert [_configured(case, i, mt, "enabled") for i in range(3)] == [[True], [False, True], [False, False]]
+    assert [x["cls"] for x in model_rules(case, names, ["u0", "u1", "u2", "u3"], mt)] == ["typed", "typed", "nothing"]
+    assert _links_problem({"kcs": ["u1"]}, [], {"kcs": ["u1"]}) is None and _links_problem(None, [], {}) is None
+    assert _links_problem({"kcs": ["u1"]}, [], {"kcs": ["u1"], "jira": ["u2"]}) and _links_problem({"kcs": ["u1"]}, [], {})
+    for got in ({"jira": ["u2"]}, {"jira": ["u2"], "kcs": ["u1"]}):        # replaced or merged: both are "its" links
+        assert _links_problem({"kcs": ["u1"]}, [{"jira": ["u2"]}], got) is None
+    assert _links_problem({"kcs": ["u1"]}, [{"jira": ["u2"]}], {"kcs": ["u1"]})                    # configured, not reported
+    assert _links_problem({"kcs": ["u1"]}, [{"jira": ["u2"]}], {"jira": ["u2"], "bz": []})        # nobody's
+    assert _links_problem({"kcs": ["u1"]}, [{"jira": ["u2"]}], {"jira": ["u2"], "kcs": ["u9"]})
+    assert _links_problem({}, [{"bz": ["u3"]}, {"jira": ["u2"]}], {"jira": ["u2"], "bz": ["u3"]}) is None
+    assert _tags_problem(["a", "a"], [], ["a"]) is None and _tags_problem(["a"], [], ["a", "a"]) and _tags_problem(None, [], ["a"])
+    assert _tags_problem(["a"], [["b"]], ["b"]) is None and _tags_problem(["a"], [["b"]], ["a", "b"]) is None
+    assert _tags_problem(["a"], [["b"]], ["a"]) and _tags_problem(["a"], [["b"]], ["b", "c"])
     assert _effective_show({"evaluator": "json", "missing": False, "show_rules": []}) == (False, set(SHOW_OPTS) - set(["none"]))
     assert _effective_show({"evaluator": "json-adapter", "missing": True, "fail_only": True, "show_rules": []}) == (True, set(SHOW_OPTS) - set(["none"]))
     assert _effective_show({"evaluator": "yaml-adapter", "missing": False, "fail_only": True, "show_rules": []}) == (False, set(["rule"]))
@@ -522,10 +692,26 @@ def _build_rules(case, uid, log):
         mods.append((full, mm))
     rules, names = [], []
     per_mod = {}
+    # module level constants shared between rule declarations: one object per pool entry, handed to every
+    # decorator that refers to it (never the case's own objects - the case stays what was generated)
+    shared = dict((what, [copy.deepcopy(v) for v in _pool(case, what)]) for what in SHAREABLE)
+    arglists = {}
+
+    def arglist(kind, idx):
+        # GROUP = [A, B] / OPTIONAL = [C] constants used in several decorators
+        if not case.get("share_args"):
+            return [ups[j] for j in idx]
+        key = (kind, tuple(idx))
+        if key not in arglists:
+            arglists[key] = [ups[j] for j in idx]
+        return arglists[key]
+
     for i, r in enumerate(case["rules"]):
         full, mm = mods[r["mod"]]
         k = per_mod.get(r["mod"], 0)
         per_mod[r["mod"]] = k + 1
+        if k > 9:
+            raise HarnessError("bad case: more than ten rules in one module (r1 would be a prefix of r10)")
         body = _make_rule_body(i, r["ret"], limit, log, reads=bool(r.get("reads")))
         body.__name__ = body.__qualname__ = "r%d" % k
         body.__module__ = full
@@ -535,23 +721,51 @@ def _build_rules(case, uid, log):
             if d[0] == "req":
                 args.append(ups[d[1]])
             elif d[0] == "grp":
-                args.append([ups[j] for j in d[1]])
+                args.append(arglist("grp", d[1]))
             else:
-                opt.append(ups[d[1]])
+                opt.append(d[1])
         kw = {}
         if opt or r.get("empty_optional"):
-            kw["optional"] = opt
-        if r.get("tags") is not None:
-            kw["tags"] = list(r["tags"])
-        if r.get("links") is not None:
-            kw["links"] = r["links"]
+            kw["optional"] = arglist("opt", opt)
+        for what in SHAREABLE:
+            ref = r.get(what + "_ref")
+            if ref is not None and shared[what]:
+                kw[what] = shared[what][ref % len(shared[what])]
+            elif r.get(what) is not None:
+                kw[what] = copy.deepcopy(r[what])
         comp = rule(*args, **kw)(body)
         rules.append(comp)
         comps.append(comp)
         names.append("%s.%s" % (full, body.__name__))
         if not r["enabled"]:
             dr.set_enabled(comp, False)
-    return comps, modnames, ups, rules, names, [md["base"] for md in case["modules"]]
+    return comps, modnames, ups, rules, names, [md["base"] for md in case["modules"]], [full for full, _ in mods]
+
+
+def _apply_config(case, names, modfulls):
+    """the "configs" list of a YAML configuration file goes through insights.apply_configs, as in insights-run
+    -c, insights-cat / insights-inspect -c, insights.tools.query, the shell and insights.collect.  Entries
+    referring to the same pool entry share one object (YAML anchors / aliases survive safe_load)."""
+    entries = case.get("configs") or []
+    if not entries:
+        return False
+    import yaml
+    import insights
+    shared = dict((what, [copy.deepcopy(v) for v in _pool(case, what)]) for what in SHAREABLE)
+    cfgs = []
+    for e in entries:
+        d = {"name": _cfg_name(e, names, modfulls)}
+        for what in SHAREABLE:
+            ref = e.get(what + "_ref")
+            if ref is not None and shared[what]:
+                d[what] = shared[what][ref % len(shared[what])]
+            elif what in e:
+                d[what] = copy.deepcopy(e[what])
+        if "enabled" in e:
+            d["enabled"] = bool(e["enabled"])
+        cfgs.append(d)
+    insights.apply_configs(yaml.safe_load(yaml.safe_dump({"configs": cfgs})))
+    return True
 
 
 def _run_evaluator(case, graph):
@@ -671,12 +885,17 @@ def check_rules(case):
     try:
         plog.disabled = True
         settings.defaults["max_detail_length"] = limit
-        comps, modnames, ups, rules, names, bases = _build_rules(case, uid, log)
+        comps, modnames, ups, rules, names, bases, modfulls = _build_rules(case, uid, log)
         upnames = [dr.get_name(u) for u in ups]
         for j, un in enumerate(upnames):
             if _NAME_RE.findall(un) != [un] or not un.endswith(".up%d" % j):
                 raise HarnessError("generated upstream %d has the unexpected name %r" % (j, un))
-        model = model_rules(case, names, upnames)
+        for i, rc in enumerate(rules):
+            if dr.get_name(rc) != names[i]:
+                raise HarnessError("generated rule %d has the unexpected name %r" % (i, dr.get_name(rc)))
+        matches = _config_matches(case, names, modfulls)
+        model = model_rules(case, names, upnames, matches)
+        _apply_config(case, names, modfulls)
         graph = {}
         for rc in rules:
             graph.update(dr.get_dependency_graph(rc))
@@ -772,14 +991,23 @@ def check_rules(case):
                                     % (i, names[i], m["type"], m["key"], HEADING[m["type"]]),
                                     options=_opts(case), headings=sorted(doc))
                 want = {"type": m["type"], "key": m["key"], "component": names[i],
-                        "links": r.get("links") or {},
                         "%s_id" % m["type"]: "%s|%s" % (bases[r["mod"]], m["key"])}
                 for k, v in want.items():
                     if ent.get(k, "<absent>") != v:
                         raise Violation("entry of rule %d carries %s=%r, expected %r" % (i, k, ent.get(k, "<absent>"), v),
                                         entry=ent)
-                if sorted(ent.get("tags", ["<absent>"])) != sorted(set(r.get("tags") or [])):
-                    raise Violation("entry of rule %d carries tags %r, expected %r" % (i, ent.get("tags"), r.get("tags")))
+                # its own links and tags: what this rule declares (alone or through a constant it shares with
+                # other rules) and what the configuration says about *this* rule
+                why = _links_problem(_declared(case, r, "links"), _configured(case, i, matches, "links"),
+                                     ent.get("links", "<absent>"))
+                if why:
+                    raise Violation("entry of rule %d (%s) carries %s" % (i, names[i], why), entry=ent,
+                                    configs=_cfg_view(case, names, modfulls))
+                why = _tags_problem(_declared(case, r, "tags"), _configured(case, i, matches, "tags"),
+                                    ent.get("tags", "<absent>"))
+                if why:
+                    raise Violation("entry of rule %d (%s) carries %s" % (i, names[i], why), entry=ent,
+                                    configs=_cfg_view(case, names, modfulls))
                 det = ent.get("details")
                 if not isinstance(det, dict) or dict(det) != m["response"]:
                     raise Violation("details of rule %d differ from the response it returned%s"
@@ -868,6 +1096,32 @@ def check_rules(case):
                 labels.add("content-error-in-rule:" + ("over-spec" if kinds - set(["component"]) else "no-spec-below"))
         if not inproc:
             labels.add("show=%s" % ("default" if not case.get("show_rules") else "subset"))
+        # shared declaration constants and the configuration
+        reported = [i for i, m in enumerate(model) if m["cls"] == "typed" and m["type"] in shown]
+        for what in SHAREABLE:
+            n = len(_pool(case, what))
+            refs = [(r.get(what + "_ref") % n if n and r.get(what + "_ref") is not None else None) for r in case["rules"]]
+            if any(x is not None and refs.count(x) > 1 for x in refs):
+                labels.add("shared-%s-object" % what)
+            if what == "metadata":
+                continue
+            named = [bool(_configured(case, i, matches, what)) for i in range(len(model))]
+            if any(named[i] for i in reported):
+                labels.add("configured-%s-reported" % what)
+            # a rule the configuration says nothing about, declared with the same object as one it names
+            if any(not named[i] and refs[i] is not None and _declared(case, case["rules"][i], what) and
+                   any(named[k] and refs[k] == refs[i] for k in range(len(model))) for i in reported):
+                labels.add("configured-%s-for-a-rule-sharing-its-constant-with-a-reported-rule" % what)
+        if case.get("configs"):
+            labels.add("config")
+            for e, hit in zip(case["configs"], matches):
+                labels.add("config-entry=%s:%s" % (e["target"][0], "several" if len(hit) > 1 else len(hit)))
+            for i, r in enumerate(case["rules"]):
+                en = _configured(case, i, matches, "enabled")
+                if en and en[-1] != bool(r["enabled"]):
+                    labels.add("config-%s-a-rule" % ("enables" if en[-1] else "disables"))
+        if case.get("share_args"):
+            labels.add("shared-dependency-lists")
         keys = [(m.get("key"), case["rules"][i]["mod"]) for i, m in enumerate(model) if m["cls"] == "typed"]
         share_key = len(set(k for k, _ in keys)) < len(keys)
         share_mod = len(set(r["mod"] for r in case["rules"])) < len(case["rules"])
@@ -881,6 +1135,20 @@ def check_rules(case):
         settings.defaults["max_detail_length"] = old_limit
         plog.disabled = old_disabled
         _cleanup(comps, modnames)
+
+
+def _cfg_view(case, names, modfulls):
+    out = []
+    for e in case.get("configs") or []:
+        d = {"name": _cfg_name(e, names, modfulls)}
+        for what in SHAREABLE:
+            has, v = _cfg_value(case, e, what)
+            if has:
+                d[what] = v
+        if "enabled" in e:
+            d["enabled"] = e["enabled"]
+        out.append(d)
+    return out
 
 
 def _opts(case):
@@ -1055,6 +1323,13 @@ def _decl(draw):
     return items
 
 
+_links = st.dictionaries(st.sampled_from(["kcs", "jira", "bz"]),
+                         st.lists(st.sampled_from(["http://u/1", "http://u/2", "http://u/3"]), max_size=2), max_size=2)
+_tags = st.lists(st.sampled_from(["t1", "t2", "sec", "perf"]), max_size=3)
+# keys no function object has as an attribute (apply_configs copies metadata values onto such attributes)
+_meta = st.dictionaries(st.sampled_from(["owner", "sev", "area"]), st.sampled_from(["x", "y", 1, 2]), max_size=2)
+
+
 @st.composite
 def _rule_set(draw, tier):
     nmod = draw(st.sampled_from([1, 2, 2, 3]))
@@ -1062,15 +1337,27 @@ def _rule_set(draw, tier):
     modules = [{"pkg": p, "base": draw(st.sampled_from(["rules", "rules", "checks"]))} for p in pkgs]
     nrules = draw(st.integers(1, 10))
     rules = []
+    # module level constants that several rule declarations (and several configuration entries) refer to
+    sharing = draw(st.booleans())
+    pools = {"links": draw(st.lists(_links, min_size=1, max_size=2)) if sharing else [],
+             "tags": draw(st.lists(_tags, min_size=1, max_size=2)) if sharing and draw(st.booleans()) else [],
+             "metadata": draw(st.lists(_meta, min_size=1, max_size=2)) if sharing and draw(st.booleans()) else []}
+
+    def ref(what, weights):
+        return draw(st.sampled_from(weights)) if pools[what] else None
+
     for _ in range(nrules):
-        links = draw(st.one_of(st.none(), st.just({}), st.dictionaries(st.sampled_from(["kcs", "jira"]),
-                                                                     st.lists(st.sampled_from(["http://u/1", "http://u/2"]), max_size=2), max_size=2)))
+        links = draw(st.one_of(st.none(), st.just({}), _links))
         rules.append({"mod": draw(st.integers(0, nmod - 1)), "decl": draw(_decl()),
                       "reads": draw(st.sampled_from([True, True, True, False])),
                       "enabled": draw(st.sampled_from([True, True, True, True, False])),
                       "empty_optional": draw(st.booleans()),
-                      "tags": draw(st.one_of(st.none(), st.lists(st.sampled_from(["t1", "t2", "sec"]), max_size=3))),
+                      "tags": draw(st.one_of(st.none(), _tags)),
                       "links": links, "ret": draw(_ret())})
+        if sharing:
+            rules[-1].update({"links_ref": ref("links", [None, 0, 0, 1]), "tags_ref": ref("tags", [None, 0, 0, 1]),
+                              "metadata_ref": ref("metadata", [None, 0, 1]),
+                              "metadata": draw(st.one_of(st.none(), _meta))})
     ev = draw(st.sampled_from(["single", "insights", "json", "json", "yaml", "json-adapter", "yaml-adapter"]))
     case = {"ups": ["ok", "skip", draw(st.sampled_from(["ok", "skip", "crash"])), draw(st.sampled_from(["ok", "skip", "crash"]))],
             "modules": modules, "rules": rules, "evaluator": ev, "incremental": draw(st.booleans()),
@@ -1085,6 +1372,31 @@ def _rule_set(draw, tier):
         if ev.endswith("-adapter"):
             case["fail_only"] = draw(st.booleans())
     case["shadows"] = draw(st.sampled_from([0, 0, 1, 2]))
+    if sharing:
+        case["pools"] = pools
+        case["share_args"] = draw(st.booleans())
+    # the "configs" list of a configuration file: entries naming one rule, a module, or nothing
+    configs = []
+    for _ in range(draw(st.sampled_from([0, 0, 1, 2, 3]))):
+        tk = draw(st.sampled_from(["rule", "rule", "rule", "module", "stem", "none"]))
+        e = {"target": [tk, draw(st.integers(0, nrules - 1 if tk == "rule" else nmod - 1))] if tk != "none" else [tk]}
+        if draw(st.sampled_from([True, True, False])):
+            if pools["links"] and draw(st.sampled_from([True, False, False])):
+                e["links_ref"] = draw(st.integers(0, 1))
+            else:
+                e["links"] = draw(_links)
+        if draw(st.sampled_from([True, False, False])):
+            if pools["tags"] and draw(st.sampled_from([True, False, False])):
+                e["tags_ref"] = draw(st.integers(0, 1))
+            else:
+                e["tags"] = draw(_tags)
+        if draw(st.sampled_from([True, False, False, False])):
+            e["metadata"] = draw(_meta)
+        if draw(st.sampled_from([True, False, False, False])):
+            e["enabled"] = draw(st.booleans())
+        configs.append(e)
+    if configs:
+        case["configs"] = configs
     if ev == "insights" and draw(st.booleans()):
         case["bad_machine_id"] = draw(st.sampled_from(["machine_id", "both"]))
     return case
@@ -1147,6 +1459,15 @@ def enum_filtering(tier):
     rules = []
     for i, ret in enumerate(_ALL_KINDS):
         rules.append({"mod": i % 2, "decl": [["req", 0]], "enabled": True, "tags": ["t1"], "links": None, "ret": ret})
+    # the typed rules are declared with constants they share (links: one dict for five rules, tags: one list for
+    # two), and the configuration names two of them: one gets other links and tags, one the links it declares
+    for i in range(5):
+        rules[i]["links_ref"] = 0
+    rules[0]["tags_ref"] = rules[2]["tags_ref"] = 0
+    pools = {"links": [{"kcs": ["http://u/1"]}], "tags": [["t1", "sec"]], "metadata": []}
+    configs = [{"target": ["rule", 0], "links": {"jira": ["http://u/2"]}, "tags": ["perf"], "metadata": {"owner": "x"}},
+               {"target": ["rule", 3], "links_ref": 0},
+               {"target": ["none"], "links": {"bz": ["http://u/3"]}, "tags": ["perf"], "enabled": False}]
     # a rule whose spec is there but cannot be read, and one that only looks at what can be read
     rules.append({"mod": 1, "decl": [["req", 0], ["opt", 3]], "enabled": True, "reads": True, "tags": None, "links": None,
                   "ret": {"kind": "fail", "key": "K2", "payload": {}}})
@@ -1166,7 +1487,7 @@ def enum_filtering(tier):
                                 "upcontent": ["ok", "ok", "ok", "cpe"],
                                 "modules": [{"pkg": "a", "base": "rules"}, {"pkg": "b", "base": "rules"}],
                                 "rules": rules, "evaluator": ev, "incremental": False, "limit": 2000,
-                                "missing": missing, "show_rules": list(show)}
+                                "missing": missing, "show_rules": list(show), "pools": pools, "configs": configs}
                         if fo is not None:
                             case["fail_only"] = fo
                         yield case
@@ -1217,6 +1538,34 @@ REGRESSIONS = [
                     "ret": {"kind": "info", "key": "K1", "payload": {"a": 1}}},
                    {"mod": 0, "decl": [["grp", [0, 2]]], "enabled": True, "reads": False, "tags": None, "links": None,
                     "ret": {"kind": "skip"}}],
+         "evaluator": "json", "incremental": False, "limit": None, "missing": True, "show_rules": [], "shadows": 1}),
+    # round 5: rules declared with shared constants (links / tags / metadata / dependency lists), a configuration
+    # naming single rules, a module and nothing
+    Reg("shared-constants-and-configuration", "rule_sets",
+        {"ups": ["ok", "skip", "ok", "ok"], "upkinds": ["component", "component", "parser", "spec"],
+         "upcontent": ["ok", "ok", "ok", "ok"], "modules": [{"pkg": "a", "base": "rules"}, {"pkg": "b", "base": "rules"}],
+         "pools": {"links": [{"kcs": ["http://u/1"], "bz": []}, {"jira": ["http://u/2"]}], "tags": [["t1", "sec", "t1"]],
+                   "metadata": [{"owner": "x"}]},
+         "share_args": True,
+         "configs": [{"target": ["module", 1], "tags": ["perf"], "metadata": {"sev": 1}},
+                     {"target": ["rule", 0], "links": {"kcs": ["http://u/3"]}, "tags_ref": 0},
+                     {"target": ["rule", 3], "links_ref": 1, "enabled": True},
+                     {"target": ["rule", 5], "enabled": False, "links": {"bz": ["http://u/1"]}},
+                     {"target": ["none"], "links": {"jira": []}, "tags": [], "enabled": False}],
+         "rules": [{"mod": 0, "decl": [["grp", [0, 1]], ["opt", 2]], "enabled": True, "reads": True, "tags": None, "links": None,
+                    "links_ref": 0, "tags_ref": 0, "metadata_ref": 0, "ret": {"kind": "fail", "key": "K1", "payload": {"a": 1}}},
+                   {"mod": 0, "decl": [["grp", [0, 1]], ["opt", 2]], "enabled": True, "reads": True, "tags": None, "links": None,
+                    "links_ref": 0, "tags_ref": 0, "metadata_ref": 0, "ret": {"kind": "info", "key": "K1", "payload": {}}},
+                   {"mod": 1, "decl": [["req", 3]], "enabled": True, "reads": False, "tags": ["t2"], "links": {"kcs": []},
+                    "links_ref": None, "tags_ref": None, "metadata_ref": None, "ret": {"kind": "pass", "key": "K2", "payload": {}}},
+                   {"mod": 1, "decl": [["req", 0]], "enabled": False, "reads": True, "tags": None, "links": None,
+                    "links_ref": 0, "tags_ref": None, "metadata_ref": 0, "ret": {"kind": "fingerprint", "key": "K1", "payload": {}}},
+                   {"mod": 0, "decl": [["req", 1]], "enabled": True, "reads": True, "tags": None, "links": None,
+                    "links_ref": 1, "tags_ref": 0, "metadata_ref": None, "ret": {"kind": "fail", "key": "K1", "payload": {}}},
+                   {"mod": 0, "decl": [], "enabled": True, "reads": False, "tags": None, "links": None,
+                    "links_ref": 0, "tags_ref": None, "metadata_ref": None, "ret": {"kind": "fail", "key": "K2", "payload": {}}},
+                   {"mod": 0, "decl": [], "enabled": True, "reads": False, "tags": [], "links": None,
+                    "links_ref": 1, "tags_ref": None, "metadata_ref": None, "ret": {"kind": "response", "key": "K2", "payload": {}}}],
          "evaluator": "json", "incremental": False, "limit": None, "missing": True, "show_rules": [], "shadows": 1}),
     Reg("limit-exact", "responses", {"cls": "fail", "key": "K1", "kwargs": {"a": 1}, "pad": 0, "limit": None}),
     Reg("limit-plus-one", "responses", {"cls": "fail", "key": "K1", "kwargs": {"a": 1}, "pad": 1, "limit": None}),
